@@ -1021,6 +1021,9 @@ func (d *c16Drv) line(w []string) string {
 	if r, ok := d.c16bLine(w); ok { // zz_verif_c16b_test.go: sender modes, 'sys', faults, ageing
 		return r
 	}
+	if r, ok := d.c16cLine(w); ok { // zz_verif_c16c_test.go: full-field download requests, {set desc} under store faults
+		return r
+	}
 	return d.hist(w)
 }
 
